@@ -38,6 +38,8 @@ CHECKS = {
          "TLC model check of Lifecycle.tla + trace validation of decode/scribble/observe lives of real values"),
  "C20": ("6", "Lifecycle.tla Read actions leave every observation unchanged (model-checked; a mutating read must fail); recorded lives of real values (constructed, decoded, standalone option values) with every reflected niladic exported method called, observations (encoding, value tree, printed form) before/between/after, printed before and after the first encoding, validated by TLC: observations constant, repeated calls return equal results",
          "TLC model check of Lifecycle.tla + trace validation of read-only call sequences on real values"),
+ "C03": ("6", "totality: every decode operator of the specification returns a value or an error for every small input (Total/Terminates invariants of MC_Label, MC_Dhcp4Scan), netboot outcomes are a total function (Netboot.tla, all conversations of 0..4 messages enumerated by TLC and replayed); every recorded run of the real decoding entry points and of every read-only use of the decoded values (reflection, builders, relay helpers, ztp/netboot extractors) on grammar-derived exhaustive, structurally mutated and large inputs must be crash-free and return within a watchdog",
+         "TLC totality invariants + TLC-enumerated conversations replayed + trace validation of recorded runs (panic/timeout = no behaviour of the spec)"),
 }
 
 def main():
